@@ -659,8 +659,9 @@ class C18(Prop):
     def build_cli(self):
         with core.Lock("cargo"):
             self.cli_fp = self.repo_fingerprint()
-            rc, out = core.sh(["cargo", "build", "--offline", "--quiet", "-p", "boreal-cli"], cwd=core.REPO, timeout=1500,
-                              env={"CARGO_NET_OFFLINE": "true"})
+            rc, out = core.cargo_build(["cargo", "build", "--offline", "--quiet", "-p", "boreal-cli"], core.REPO, "debug",
+                                       ("boreal", "boreal-parser", "boreal-cli"), timeout=1500,
+                                       env={"CARGO_NET_OFFLINE": "true"})
         return rc, out
 
     def translators(self, ctx):
@@ -870,7 +871,7 @@ class C18(Prop):
         if os.path.isdir(d):
             for f in sorted(os.listdir(d)):
                 if f.endswith(".json"):
-                    out.append(json.load(open(os.path.join(d, f)))["case"])
+                    out.append(core.load_case_file(os.path.join(d, f))["case"])
         return out
 
     # ---------------------------------------------------------------- execution
